@@ -134,6 +134,8 @@ def expect(op, pops, arg):
 
 
 def r1(ctx):
+    global MAXH
+    MAXH = 8 if ctx.tier == "thorough" else 5
     F = ctx.facts
     sf = F.field_index(POP, "stack")
     n = 0
@@ -195,6 +197,8 @@ def r1(ctx):
 
 
 def r3(ctx):
+    global MAXH
+    MAXH = 8 if ctx.tier == "thorough" else 5
     F = ctx.facts
     sf = F.field_index(POP, "stack")
     adt = "mahf::components::utils::populations::RotatePopulations"
